@@ -24,6 +24,10 @@ func genC11(g *gen) {
 	g.genConfigs(false)
 	pool := stubsOf("corr", "cstream")
 	nThreads := 1 + g.r.IntN(2)
+	if c.NServers >= 2 && g.chance(0.12) {
+		genAllFail(g)
+		return
+	}
 	for t := 0; t < nThreads; t++ {
 		th := &Thread{Mgr: 0}
 		nOps := 1 + g.r.IntN(3)
@@ -396,6 +400,14 @@ func (w *World) checkCorrHistory(c *Call, fin map[*Call]Observation) {
 			}
 		}
 	}
+	if w.Cfg.AllFailScenario && c.Info.Kind == "cstream" && c.CtxKind == "bg" && !c.IsProbe {
+		// every targeted node has failed for this call (handlers ended their streams with an
+		// error; the node that was down could not be sent the request): the call must be complete
+		w.rule("C11.stream-completes-when-all-nodes-failed", c.DoneSeq != 0)
+		if c.DoneSeq == 0 {
+			w.violate("C11", "stream-not-completed", "all-failed", "%s has not completed although every targeted node has failed for it (node %v was down and its request could not be sent; the others ended their streams with an error): %s", id, w.Cfg.Down, w.stuckReport())
+		}
+	}
 	if c.DoneSeq == 0 && c.CtxKind == "bg" && c.Info.Kind == "cstream" && len(c.Targets) > 0 {
 		// a server-stream call completes when every node has failed: here, when every targeted
 		// server has crashed (and stayed down) after the call was made
@@ -431,4 +443,38 @@ func (w *World) noContextEndedEarly() bool {
 		}
 	}
 	return true
+}
+
+// genAllFail: every node fails, one of them late: a server-stream call with a Background context on a
+// configuration with one node that is down (blocking dial, long timeout - its sender reports the
+// failure only after a second) while the other nodes stream a few replies and then end their stream
+// with an error, and the quorum function stalls (the reply channel is full most of the time). The
+// call must complete once the last node has failed (C11; and nobody is left waiting for a failed
+// node, C07).
+func genAllFail(g *gen) {
+	c := g.cfg
+
+	c.WithBlock, c.DialTimeoutMs, c.FaultFree = true, 1000, false
+	c.TickP = 0 // the clock moves only when nothing else can: the replies pile up before the dial times out
+	down := g.r.IntN(c.NServers)
+	c.Down = []int{down}
+	cs := stubsOf("cstream")
+	s := cs[g.r.IntN(len(cs))]
+	for s.ReqEmpty {
+		s = cs[g.r.IntN(len(cs))]
+	}
+	op := g.callOp(0, s, 0, 0)
+	op.Cfg, op.Ctx, op.PerNode = 0, "bg", nil
+	if s.PerNode {
+		op.PerNode = &PerNodeSpec{}
+	}
+	op.Plans = map[int]*HandlerPlan{}
+	for _, si := range g.prog.Configs[0][0] {
+		op.Plans[si] = &HandlerPlan{Reply: "ok", StreamK: 2 + g.r.IntN(4), StreamEnd: "err", Code: 10, Msg: "stream-aborted"}
+	}
+	op.QF = &QFSpec{NeedServer: -1, DoneAt: 1 << 20, Slow: true, StallMs: 1500, Levels: []int{1, 2, 3, 4, 5, 6, 7, 8, 9, 10, 11, 12, 13, 14, 15, 16, 17, 18, 19, 20}}
+	op.Observers = nil
+	// the thread waits for the call to complete, so that the adversarial phase lasts that long
+	g.prog.Threads = append(g.prog.Threads, &Thread{Mgr: 0, Ops: []*Op{op, {Kind: "wait", Ref: 0}}})
+	c.AllFailScenario = true
 }
